@@ -943,6 +943,17 @@ def chain_family():
          "class Cfg:\n  table = {%s}\n" % entries(n, lambda i: "%d: [%s]" % (i, "1.5" if i % 2 else "b'b'")) +
          "  def __init__(self):\n    self.ia0 = [%s]\n" % entries(n, lambda i: "[dep.D0()]" if i % 2 else "[None]"))
     out.append((dep, a))
+  # (c) containers that are added to after their creation (displays mixing unpacking and items, update / extend / +=):
+  # what the upstream analysis sees for them in the module must be what the stub says (defect repaired by 23d3aba)
+  a = ("import dep\ndef g():\n  return 3\ndef h():\n  return 's'\n"
+       "d1 = {1: g()}\nd2 = {'k': 1.5}\nl1 = [g()]\nl2 = [h(), None]\n"
+       "w1 = {**d1, 'a': g()}\nw2 = {**d2, h(): l1}\nw3 = {b'b': None, **d1, 'a': h()}\nw4 = {**d1, **d2}\n"
+       "u1 = [g(), *l2]\nu2 = [*l1, h()]\nu3 = (g(), *l2)\nu4 = {g(), *l2}\n"
+       "v1 = {1: g()}\nv1.update({'a': h()})\nv2 = {1: g()}\nv2.update(a=1.5)\nv3 = [g()]\nv3.extend(l2)\n"
+       "v4 = [g()]\nv4 += l2\nv5 = {**d1}\nv5.update(d2)\n"
+       "class Box:\n  items = {**d1, 'z': h()}\n  def __init__(self):\n    self.ia0 = [g(), *l2]\n"
+       "  def all(self):\n    return {**self.items, 'n': dep.D0()}\n")
+  out.append((dep, a))
   return out
 
 
